@@ -18,7 +18,7 @@ import sys
 import time
 
 ROOT = os.path.dirname(os.path.dirname(os.path.abspath(__file__)))
-SEEDED = os.path.join(ROOT, "seeded")
+SEEDED = os.path.join(ROOT, os.environ.get("FCV_SEEDED_DIR", "seeded"))  # "refactors" for the false-alarm probes
 REPO = "/repo"
 SCRATCH = "/tmp/seedverify"
 
@@ -135,7 +135,13 @@ def verify(n):
         "cargo build --offline --no-default-features [--features alloc]",
         "cp demo.rs tests/seeded_demo.rs; cargo test --offline --test seeded_demo   (with and without the patch)",
     ]
-    good = all(res[k] for k in ("applies", "suite_passes_with_patch", "demo_fails_with_patch", "demo_passes_without_patch"))
+    if m.get("kind") == "refactor":
+        # a behaviour-preserving refactoring: its demo shows the internal difference
+        # (passes with the patch, fails without); the suite must pass and all configs build
+        good = all([res["applies"], res["suite_passes_with_patch"], res["builds_alloc_and_no_std_with_patch"]])
+        res["demo_shows_difference"] = (not res["demo_fails_with_patch"]) and (not res["demo_passes_without_patch"])
+    else:
+        good = all(res[k] for k in ("applies", "suite_passes_with_patch", "demo_fails_with_patch", "demo_passes_without_patch"))
     res["confirmed"] = good
     m["verify"] = res
     save_meta(n, m)
